@@ -8,7 +8,7 @@
 From Coq Require Import List ZArith Bool String.
 Import ListNotations.
 Require Import V.lib.Bytes V.lib.Civil V.models.Timer V.proofs.TimerProofs V.models.TimerText V.proofs.TimerTextProofs.
-Require Import V.gen.RefreshConsts V.models.AutoRefresh V.proofs.AutoRefreshProofs V.proofs.TimerFuelProofs.
+Require Import V.gen.RefreshConsts V.models.AutoRefresh V.proofs.AutoRefreshProofs V.proofs.TimerFuelProofs V.proofs.TimerChainProofs.
 Open Scope Z_scope.
 
 (* The refresh limit, for ANY schedule functions: whatever windows the schedules' Next return, timeutil.Next's chosen
@@ -134,6 +134,59 @@ Theorem C16_parsed_roundtrip : forall (text : bytes) (l : list schedule),
   parse_schedule text = Some l -> Forall (fun s => parse_schedule (fmt_sched s) = Some [norm_sched s]) l.
 Proof. exact parsed_roundtrip. Qed.
 Print Assumptions C16_parsed_roundtrip.
+
+(* The round trip with equivalence: for EVERY well-formed non-empty schedule s, ParseSchedule (String s) = [s'] where s' denotes
+   the same schedule: Includes agrees at every instant, and Next (any fuel, last, now) returns windows with the same start
+   and end (owin_rel: the spread flag may differ only on an empty window, whose random spread is 0). *)
+Theorem C16_roundtrip_equivalent : forall s : schedule, sched_ok s = true ->
+  exists s', parse_schedule (fmt_sched s) = Some [s'] /\
+    (forall t, sched_includes s' t = sched_includes s t) /\
+    (forall fuel last now, owin_rel (sched_next fuel s' last now) (sched_next fuel s last now)).
+Proof. exact roundtrip_equivalent. Qed.
+Print Assumptions C16_roundtrip_equivalent.
+
+(* The chain from the user's string to the window guarantee: every timer text ParseSchedule accepts yields schedules that
+   are well formed and for which, for every last and now, the day search terminates within next_fuel last now days and
+   returns a window of the schedule (not ending before now, not containing last, earliest of its day) that Includes
+   accepts on its own day unless its span starts at 24:00 (window_guarantee). *)
+Theorem C16_string_to_window : forall (text : bytes) (l : list schedule),
+  parse_schedule text = Some l ->
+  l <> [] /\ Forall (fun s => sched_wf s = true /\ forall last now, window_guarantee s last now) l.
+Proof. exact string_to_window. Qed.
+Print Assumptions C16_string_to_window.
+
+(* the recorded findings, starting from the timer string *)
+Theorem C16_string_start_2400_refuted :
+  parse_schedule (bs "mon,24:00") = Some [ex_mon_2400] /\
+  exists w, sched_next (next_fuel ex_last (ex_last + 60)) ex_mon_2400 ex_last (ex_last + 60) = Some w /\
+            sched_includes ex_mon_2400 (w_start w) = false.
+Proof. exact string_start_2400. Qed.
+Print Assumptions C16_string_start_2400_refuted.
+
+Theorem C16_string_start_2400_tail_refuted :
+  parse_schedule (bs "0:00,24:00-7:30") = Some [ex_2400_tail] /\
+  exists w, sched_next (next_fuel ex_last (ex_last + 60)) ex_2400_tail ex_last (ex_last + 60) = Some w /\
+            sched_includes ex_2400_tail (w_start w) = true /\ sched_includes ex_2400_tail (w_end w - 60) = false.
+Proof. exact string_start_2400_tail. Qed.
+Print Assumptions C16_string_start_2400_tail_refuted.
+
+Theorem C16_string_midnight_tail_refuted :
+  parse_schedule (bs "23:00-01:00") = Some [ex_night] /\
+  exists w t, sched_next (next_fuel ex_last (ex_last + 60)) ex_night ex_last (ex_last + 60) = Some w /\
+              w_start w <= t < w_end w /\ sched_includes ex_night t = false.
+Proof. exact string_midnight_tail. Qed.
+Print Assumptions C16_string_midnight_tail_refuted.
+
+(* what the parser accepts / rejects that one might not expect (all also sent to the real parser by the text driver) *)
+Theorem C16_parser_observations :
+  parse_schedule (bs "-") = None /\ parse_schedule (bs "~") = None /\ parse_schedule (bs "mon,-") = None /\
+  parse_schedule (bs "~/2") = None /\
+  option_map (map fmt_sched) (parse_schedule (bs "mon1-tue2")) = Some [bs "mon1-tue"] /\
+  option_map (map fmt_sched) (parse_schedule (bs "9:00~9:00/3")) = Some [bs "09:00"] /\
+  (exists l, parse_schedule (bs "0:00-24:00/4294967295") = Some l) /\ parse_schedule (bs "0:00-24:00/4294967296") = None /\
+  option_map (map fmt_sched) (parse_schedule (bs "9:00-10:00/007")) = Some [bs "09:00-10:00/7"].
+Proof. exact parser_observations. Qed.
+Print Assumptions C16_parser_observations.
 
 (* Manager level. For EVERY history of refresh.timer changes, last-refresh changes and Ensure calls, at every Ensure:
    a refresh time that remains planned (nextRefresh) was computed by timeutil.Next under the timer configured NOW —
